@@ -501,7 +501,27 @@ impl<'r> G<'r> {
                 let id = self.id();
                 let var = format!("W{}%", id);
                 let (from, to, step) = if with_step {
-                    match self.rng.below(4) {
+                    match self.rng.below(6) {
+                        4 => {
+                            // the result of the step expression equals its right operand
+                            let v = self.rng.pick(&GLOBALS).to_string();
+                            let e = Expr::Add(
+                                Box::new(Expr::Mul(Box::new(Expr::Var(v)), Box::new(Expr::Int(0)))),
+                                Box::new(Expr::Int(2)),
+                            );
+                            (Expr::Int(0), Expr::Int(3), Some(e))
+                        }
+                        5 => {
+                            let v = self.rng.pick(&GLOBALS).to_string();
+                            let e = Expr::Mul(
+                                Box::new(Expr::Int(-1)),
+                                Box::new(Expr::Paren(Box::new(Expr::Add(
+                                    Box::new(Expr::Mul(Box::new(Expr::Var(v)), Box::new(Expr::Int(0)))),
+                                    Box::new(Expr::Int(1)),
+                                )))),
+                            );
+                            (Expr::Int(2), Expr::Int(0), Some(e))
+                        }
                         0 => (Expr::Int(1), Expr::Int(5), Some(Expr::Int(2))),
                         1 => (Expr::Int(3), Expr::Int(1), Some(Expr::Int(-1))),
                         2 => (Expr::Int(6), Expr::Int(2), Some(Expr::Int(-2))),
@@ -975,7 +995,291 @@ fn insert_in_block(
     true
 }
 
+
+// ----------------------------------------------------------------------
+// Shaped families: combinations the free generator reaches too rarely. A handler's way
+// out (RESUME, RESUME NEXT, RESUME label) is combined with loops whose bounds and step
+// live in register frames, with calls several levels deep and with a pending GOSUB.
+// Everything else (which loop, which depth, which failing statement) is drawn.
+// ----------------------------------------------------------------------
+
+struct Sh<'r> {
+    rng: &'r mut Rng,
+    next: StmtId,
+    t: u32,
+}
+
+impl<'r> Sh<'r> {
+    fn st(&mut self, kind: StmtKind) -> Stmt {
+        self.next += 1;
+        Stmt {
+            id: self.next,
+            kind,
+        }
+    }
+    fn trace(&mut self, vars: &[&str]) -> Stmt {
+        self.t += 1;
+        let mut items = vec![PItem::E(Expr::Str(format!("T{}", self.t)))];
+        for v in vars {
+            items.push(PItem::Semi);
+            items.push(PItem::E(Expr::Var(v.to_string())));
+        }
+        self.st(StmtKind::Print {
+            dev: Dev::Screen,
+            items,
+            using: None,
+        })
+    }
+    fn fail(&mut self) -> Stmt {
+        let k = *self.rng.pick(&[
+            FailKind::DivZero,
+            FailKind::Subscript,
+            FailKind::Overflow,
+            FailKind::IllegalCall,
+            FailKind::DivZeroMid,
+            FailKind::DivZeroNestedArgs,
+        ]);
+        self.st(StmtKind::Fail(k))
+    }
+    /// FOR with one of the header forms; the counter runs over 2 or 3 values
+    fn for_loop(&mut self, var: &str, body: Vec<Stmt>) -> Stmt {
+        let (from, to, step) = match self.rng.below(5) {
+            0 => (Expr::Int(1), Expr::Int(3), None),
+            1 => (Expr::Int(1), Expr::Int(2), None),
+            2 => (Expr::Int(1), Expr::Int(21), Some(Expr::Int(10))),
+            3 => (Expr::Int(3), Expr::Int(1), Some(Expr::Int(-1))),
+            _ => (
+                Expr::Int(0),
+                Expr::Int(4),
+                Some(Expr::Add(
+                    Box::new(Expr::Mul(Box::new(Expr::Var("G1%".into())), Box::new(Expr::Int(0)))),
+                    Box::new(Expr::Int(2)),
+                )),
+            ),
+        };
+        self.st(StmtKind::For {
+            var: var.to_string(),
+            from,
+            to,
+            step,
+            body,
+        })
+    }
+    /// S1 -> S2 -> ... the deepest fails; returns the procs and the call statement
+    fn call_chain(&mut self, depth: u32) -> (Vec<Proc>, Stmt) {
+        let mut procs = vec![];
+        let use_fn = self.rng.chance(1, 3);
+        for i in (1..=depth).rev() {
+            let last = i == depth;
+            let mut body = vec![self.trace(&["P1%"])];
+            if last {
+                let f = self.fail();
+                body.push(f);
+            } else {
+                let callee_is_fn = use_fn && i + 1 == depth;
+                let call = if callee_is_fn {
+                    self.st(StmtKind::Assign {
+                        var: "L1%".into(),
+                        expr: Expr::Call("F1%".into(), vec![Expr::Int(1)]),
+                    })
+                } else {
+                    self.st(StmtKind::CallSub {
+                        name: format!("S{}", i + 1),
+                        args: vec![Expr::Int(i as i32)],
+                    })
+                };
+                if self.rng.chance(1, 3) {
+                    // the callee holds a loop of its own around the call
+                    let l = self.for_loop("L2%", vec![call]);
+                    body.push(l);
+                } else {
+                    body.push(call);
+                }
+            }
+            body.push(self.trace(&[]));
+            let is_function = use_fn && last && depth > 1;
+            procs.push(Proc {
+                name: if is_function {
+                    "F1%".into()
+                } else {
+                    format!("S{}", i)
+                },
+                is_function,
+                params: vec!["P1%".into()],
+                body,
+                is_static: false,
+            });
+        }
+        let call = self.st(StmtKind::CallSub {
+            name: "S1".into(),
+            args: vec![Expr::Int(0)],
+        });
+        (procs, call)
+    }
+    fn handler(&mut self, out: &mut Vec<Stmt>, kind: ResumeKind, retries: Option<i32>) {
+        out.push(self.st(StmtKind::Label("H1".into())));
+        out.push(self.st(StmtKind::Print {
+            dev: Dev::Screen,
+            items: vec![
+                PItem::E(Expr::Str("H".into())),
+                PItem::Semi,
+                PItem::E(Expr::Err),
+                PItem::Semi,
+                PItem::E(Expr::Var("G3%".into())),
+            ],
+            using: None,
+        }));
+        out.push(self.st(StmtKind::Assign {
+            var: "G3%".into(),
+            expr: Expr::Add(Box::new(Expr::Var("G3%".into())), Box::new(Expr::Int(1))),
+        }));
+        if let Some(n) = retries {
+            out.push(self.st(StmtKind::Assign {
+                var: "HC%".into(),
+                expr: Expr::Add(Box::new(Expr::Var("HC%".into())), Box::new(Expr::Int(1))),
+            }));
+            let resume = self.st(StmtKind::Resume(ResumeKind::Bare));
+            out.push(self.st(StmtKind::IfLine {
+                cond: Expr::Cmp(
+                    CmpOp::Le,
+                    Box::new(Expr::Mul(Box::new(Expr::Var("HC%".into())), Box::new(Expr::Int(1)))),
+                    Box::new(Expr::Int(n)),
+                ),
+                then_s: Box::new(resume),
+                else_s: None,
+            }));
+        }
+        out.push(self.st(StmtKind::Resume(kind)));
+    }
+}
+
+pub fn gen_resume_shapes(rng: &mut Rng) -> Scenario {
+    let shape = rng.below(2);
+    let mut g = Sh { rng, next: 0, t: 0 };
+    let mut main: Vec<Stmt> = vec![];
+    let mut procs: Vec<Proc> = vec![];
+    main.push(g.trace(&[]));
+    let in_gosub = g.rng.chance(1, 3);
+    let mut part: Vec<Stmt> = vec![];
+    let kind;
+    let mut retries = None;
+    if shape == 0 {
+        // RESUME label: the label is inside a loop (or two), the failing call is
+        // several levels deep; the loops must go on with their bounds
+        let depth = 1 + g.rng.below(3) as u32;
+        let (p, call) = g.call_chain(depth);
+        procs = p;
+        let k = 1 + g.rng.below(2) as i32;
+        let guarded = g.st(StmtKind::IfLine {
+            cond: Expr::Cmp(
+                CmpOp::Lt,
+                Box::new(Expr::Var("G3%".into())),
+                Box::new(Expr::Int(k)),
+            ),
+            then_s: Box::new(call),
+            else_s: None,
+        });
+        let mut body = vec![
+            g.st(StmtKind::Label("RL1".into())),
+            g.trace(&["W1%", "G3%"]),
+            guarded,
+            g.trace(&["W1%"]),
+        ];
+        let loops = g.rng.below(3);
+        if loops >= 1 {
+            body = vec![g.for_loop("W1%", body)];
+        }
+        if loops >= 2 {
+            // no device statements here: a fault there would make the handler jump
+            // from outside into the inner loop
+            let bump = |g: &mut Sh| {
+                g.st(StmtKind::Assign {
+                    var: "G2%".into(),
+                    expr: Expr::Add(
+                        Box::new(Expr::Var("G2%".into())),
+                        Box::new(Expr::Var("W2%".into())),
+                    ),
+                })
+            };
+            let a = bump(&mut g);
+            let b = bump(&mut g);
+            body.insert(0, a);
+            body.push(b);
+            body = vec![g.for_loop("W2%", body)];
+        }
+        // the handler is armed for the loops only: RESUME RL1 is meaningful for errors
+        // raised inside them
+        part.push(g.st(StmtKind::OnErrorGoto("H1".into())));
+        part.extend(body);
+        part.push(g.st(StmtKind::OnErrorGoto0));
+        kind = ResumeKind::Label("RL1".into());
+    } else {
+        // an error inside a loop body, handled by RESUME (after retries) or RESUME NEXT;
+        // afterwards a GOTO leaves an inner loop for a label of the enclosing loop
+        let failing = if g.rng.chance(1, 2) {
+            let depth = 1 + g.rng.below(2) as u32;
+            let (p, call) = g.call_chain(depth);
+            procs = p;
+            call
+        } else {
+            g.fail()
+        };
+        let b1 = vec![g.trace(&["W1%"]), failing, g.trace(&["W1%", "G3%"])];
+        part.push(g.st(StmtKind::OnErrorGoto("H1".into())));
+        part.push(g.for_loop("W1%", b1));
+        let jump = if g.rng.chance(1, 2) {
+            g.st(StmtKind::Goto("LB1".into()))
+        } else {
+            let go = g.st(StmtKind::Goto("LB1".into()));
+            g.st(StmtKind::IfLine {
+                cond: Expr::Cmp(
+                    CmpOp::Ge,
+                    Box::new(Expr::Var("W3%".into())),
+                    Box::new(Expr::Int(1)),
+                ),
+                then_s: Box::new(go),
+                else_s: None,
+            })
+        };
+        let inner_body = vec![jump, g.trace(&["W3%"])];
+        let inner = g.for_loop("W3%", inner_body);
+        let b2 = vec![
+            g.trace(&["W2%"]),
+            inner,
+            g.st(StmtKind::Label("LB1".into())),
+            g.trace(&["W2%", "W3%"]),
+        ];
+        part.push(g.for_loop("W2%", b2));
+        kind = ResumeKind::Next;
+        if g.rng.chance(2, 3) {
+            retries = Some(1 + g.rng.below(2) as i32);
+        }
+    }
+    let mut gosub_body: Vec<Stmt> = vec![];
+    if in_gosub {
+        main.push(g.st(StmtKind::Gosub("GB1".into())));
+        gosub_body.push(g.st(StmtKind::Label("GB1".into())));
+        gosub_body.extend(part);
+        gosub_body.push(g.trace(&["G3%"]));
+        gosub_body.push(g.st(StmtKind::Return(None)));
+    } else {
+        main.extend(part);
+    }
+    main.push(g.trace(&["G3%"]));
+    main.push(g.st(StmtKind::End));
+    main.extend(gosub_body);
+    g.handler(&mut main, kind, retries);
+    Scenario {
+        main,
+        procs,
+        stdin: vec![],
+    }
+}
+
 pub fn gen_control_flow(rng: &mut Rng, avoid: &Avoid) -> Scenario {
+    if rng.chance(1, 12) {
+        return gen_resume_shapes(rng);
+    }
     let f = Features::random(rng);
     let mut g = G {
         rng,
